@@ -317,3 +317,19 @@ class WindowedAndStatisticalLosses:
             r_neg = K.call(fn, a, 1 - b, **kw)
             if K.ensure_returns(r_neg):
                 K.ensure_eq("relabel", r_neg, r_ab, text="C16: relabelling-free symmetry for mutual information (intensity inversion)", tol=5e-2)
+            # per-item masks with random sampling of voxels: item k is sampled in *its own* region of interest only, so
+            # intensities outside the mask of item 1 (here: inside the mask of item 0) do not influence the loss
+            m = torch.zeros((2, 1) + shape)
+            half = shape[-1] // 2
+            m[0, ..., :half] = 1
+            m[1, ..., half:] = 1
+            outside1 = (m[1:2] == 0)
+            a2, b2 = a.clone(), b.clone()
+            a2[1:2][outside1] = 1 - a2[1:2][outside1]
+            b2[1:2][outside1] = torch.rand(int(outside1.sum()), generator=g)
+            vals = []
+            for x, y in ((a, b), (a2, b2)):
+                torch.manual_seed(1234)
+                vals.append(K.call(fn, x, y, mask=m, num_samples=64, vmin=0.0, vmax=1.0))
+            if K.ensure_returns(vals[0], text="C16: accepts every documented mask shape [per-item mask with sampling]") and K.ensure_returns(vals[1]):
+                K.ensure_eq("own-mask-only", vals[1], vals[0], text="C16: averages only over the masked region [per-item masks: every item is sampled inside its own mask]", tol=1e-5)
